@@ -431,6 +431,16 @@ def pipeline(path, seed, runs, full):
 
 
 def worker_main(argv):
+    try:
+        return _worker_main(argv)
+    except BaseException as e:                       # fd 2 is closed below: leave the reason where the parent reads it
+        import traceback
+        with open(argv[1] + ".err", "w", encoding="utf8") as f:
+            f.write("%s: %s\n%s" % (type(e).__name__, e, traceback.format_exc()[-3000:]))
+        raise
+
+
+def _worker_main(argv):
     spec = json.load(open(argv[0], encoding="utf8"))
     import logging
     devnull = os.open(os.devnull, os.O_WRONLY)
